@@ -1212,8 +1212,9 @@ func (e *Entry) Augment(addErrors bool) (processed, skipped int) {
 			continue
 		}
 		switch {
-		case target.Dir == nil, target.Kind == AnyXMLEntry, target.Kind == AnyDataEntry:
-			// The target exists but is not a node that can have children.
+		case target.Dir == nil, target.Kind == AnyXMLEntry, target.Kind == AnyDataEntry, target.RPC != nil:
+			// The target exists but is not a node that can have children
+			// (an rpc or action has an input and an output, which can).
 			e.errorf("%s: augment %s: target cannot have children", Source(a.Node), a.Name)
 			processed++
 			continue
